@@ -242,3 +242,7 @@ package selector
 //@   requires msi.MapIterator != nil
 //@   assigns nothing
 //@   ensures[C16] d == (msi.MapIterator.pos >= datamodel.vlen(msi.MapIterator.src))
+
+// ---- C20: a compiled selector is only read (frame sweep) ----
+//@ sweep[C20] assigns nothing: ExploreAll, ExploreFields, ExploreIndex, ExploreRange, ExploreRecursive, ExploreRecursiveEdge,
+//@   ExploreUnion, ExploreInterpretAs, Matcher, Condition, Slice, RecursionLimit, listSegmentIterator, mapSegmentIterator
